@@ -229,10 +229,17 @@ class Interp:
         return [self.snap(b) for b in self.pool]
 
     def compare(self, before, skip, where):
+        tgt_ids = set(before[skip][0]) if 0 <= skip < len(before) else set()
         for j, b in enumerate(self.pool[:len(before)]):
             if j == skip:
                 continue
             ids, enc = self.snap(b)
+            if where == "edit" and tgt_ids & set(before[j][0]):
+                # the two blocks hold some of the SAME item objects because the history assigned one block's items to the other
+                # (the caller's choice): editing such an item shows in both. Their lists are still their own.
+                if ids != before[j][0]:
+                    self.ctx.fail(f"{self.t}/{where}/other-instance-items-changed", f"{self.t}: {where} on instance {skip} changed the item list of instance {j}")
+                continue
             if ids != before[j][0]:
                 self.ctx.fail(f"{self.t}/{where}/other-instance-items-changed",
                               f"{self.t}: {where} on instance {skip} changed the items of instance {j} ({len(before[j][0])} -> {len(ids)} items)")
@@ -283,7 +290,23 @@ class Interp:
         i = op["i"] % len(self.pool)
         b = self.pool[i]
         before = self.snaps()
-        if o == "add":
+        if o == "adopt":
+            # this instance takes over the items of another one through the public getter / setter: afterwards they hold the same item
+            # objects, but each its own list - adding to or removing from one must not show in the other
+            if self.t not in ("data3D", "force3D", "events", "optical") or len(self.pool) < 2:
+                return
+            src = self.pool[(i + 1 + op.get("how", 0)) % len(self.pool)]
+            if src is b:
+                return
+            if self.t in ("data3D", "force3D"):
+                b.tracks = src.tracks
+            elif self.t == "events":
+                b.events = list(src.events)   # a plain attribute: the caller copies (handing over the very list would be caller-side aliasing)
+            else:
+                b.channels = list(src.channels)
+            self.stats["adoptions"] = self.stats.get("adoptions", 0) + 1
+            changed = True
+        elif o == "add":
             self.ad.add(b, self.ad.item())
             changed = True
         elif o == "remove":
@@ -313,7 +336,7 @@ def inits(t):
 def ops(t):
     i = st.integers(0, 20)
     create = st.fixed_dictionaries({"op": st.just("create"), "how": st.sampled_from(["empty", "empty", "with-items", "decode"]), "k": st.integers(1, 3), "src": i})
-    mut = st.fixed_dictionaries({"op": st.sampled_from(["add", "add", "remove", "edit"]), "i": i, "how": i})
+    mut = st.fixed_dictionaries({"op": st.sampled_from(["add", "add", "remove", "edit", "adopt"]), "i": i, "how": i})
     return st.one_of(create, mut, mut)
 
 
@@ -433,6 +456,28 @@ def _some_block(t, seed):
     return specs.build(labelled_spec(t, 2))
 
 
+def _roomy_block(t, seed):
+    """a block whose arrays are large enough (hundreds of bytes each) for any bulk-read path of the decoder"""
+    from .c07 import labelled_spec
+    from .c14 import _minimal
+
+    if t == "data3D":
+        spec = dict(labelled_spec("data3D", 2), format=1, links=[[i, i + 1] for i in range(40 + seed % 5)])
+    elif t == "calib":
+        cam = {"rot": [seed] * 9, "trans": [0] * 3, "focus": [0] * 2, "center": [0] * 2, "xd": [seed + i for i in range(70)], "yd": [i for i in range(70)], "vp": [0, 0, 1, 1]}
+        spec = dict(_minimal("calib"), format=2, cams=[cam, dict(cam)], map=[0, 1])
+    elif t == "data2D":
+        spec = {"t": "data2D", "format": 2, "nCams": 2, "nFrames": 2, "frequency": 100, "startTime": 0, "flags": 0, "camMap": [0, 1],
+                "cells": [[[[0x3F800000 + i, 0x40000000 + i] for i in range(40)], None], [None, [[0x3F800000, 0x3F800000]] * 33]]}
+    elif t == "events":
+        spec = {"t": "events", "format": 1, "startTime": 0, "events": [{"label": "many", "type": 1, "values": [0x3F800000 + i for i in range(80)]}, {"label": "e", "type": 0, "values": [0x3F800000]}]}
+    elif t in specs.RLE_TYPES:
+        spec = specs._rle_block(t, 100, [specs._rle_item(t, i, specs._vals(seed + i, 100, specs.PER_FRAME[t])) for i in range(2)])
+    else:
+        spec = labelled_spec(t, 3)
+    return specs.build(spec)
+
+
 def deep_mutate(obj, depth=0, seen=None):
     """edit in place every list and writable array reachable through instance attributes; returns the number of edits"""
     import numpy as np
@@ -526,7 +571,8 @@ def deep_snapshot(obj, depth=0):
 def deep_strategy(tier):
     import hypothesis.strategies as st_
 
-    made = st_.fixed_dictionaries({"t": st_.sampled_from(ALL_TYPES), "origin": st_.sampled_from(["constructed", "constructed-empty", "decoded"]), "seed": st_.integers(1, 50)})
+    made = st_.fixed_dictionaries({"t": st_.sampled_from(ALL_TYPES), "origin": st_.sampled_from(["constructed", "constructed-empty", "decoded", "decoded-same-stream",
+                                                                                                 "decoded-same-stream", "decoded-roomy"]), "seed": st_.integers(1, 50)})
     bare = st_.fixed_dictionaries({"t": st_.sampled_from(ALL_TYPES + ["event-item"]), "origin": st_.just("bare-constructor"), "seed": st_.integers(1, 50),
                                    "when": st_.sampled_from(["sibling-before", "sibling-after", "both"])})
     return st_.one_of(made, made, bare)
@@ -563,7 +609,25 @@ def run_deep(ctx, case):
         return b if origin == "constructed" else specs.lib_decode(t, fmt, specs.lib_write(b))[0]
 
     pristine_empty = specs.lib_write(_minimal_block(t))
-    a, b = make(), make()
+    if origin in ("decoded-same-stream", "decoded-roomy"):
+        # two decode calls on the SAME bytes: from one stream object rewound in between (a decoder that hands out views into the
+        # stream's buffer would make the two blocks share memory), or from two streams over one bytes object
+        import io
+
+        src = _roomy_block(t, case["seed"])
+        fmt = src.format.value if hasattr(src.format, "value") else fmt
+        data = specs.lib_write(src)
+        cls = specs.lib_class(t)
+        if origin == "decoded-same-stream":
+            stream = io.BytesIO(b"\x00" * 5 + data)
+            stream.seek(5)
+            a = cls._build(stream, fmt)
+            stream.seek(5)
+            b = cls._build(stream, fmt)
+        else:
+            a, b = cls._build(io.BytesIO(data), fmt), cls._build(io.BytesIO(data), fmt)
+    else:
+        a, b = make(), make()
     before = specs.lib_write(b)
     shot = deep_snapshot(b)
     edits = deep_mutate(a)
